@@ -246,3 +246,123 @@ func HarnessC02Service(a []int) {
 	verifAssert("C02.same_value", same)
 	verifCover("C02.end")
 }
+
+func init() {
+	verifHarnesses["HarnessC02Relay"] = HarnessC02Relay
+}
+
+// c02ServiceEqual: same dynamic type and equal fields, for every decodable service type.
+func c02ServiceEqual(a, b Service) bool {
+	switch x := a.(type) {
+	case *ConnReq:
+		y, ok := b.(*ConnReq)
+		return ok && *x == *y
+	case *ConnRes:
+		y, ok := b.(*ConnRes)
+		return ok && *x == *y
+	case *ConnStateReq:
+		y, ok := b.(*ConnStateReq)
+		return ok && *x == *y
+	case *ConnStateRes:
+		y, ok := b.(*ConnStateRes)
+		return ok && *x == *y
+	case *DiscReq:
+		y, ok := b.(*DiscReq)
+		return ok && *x == *y
+	case *DiscRes:
+		y, ok := b.(*DiscRes)
+		return ok && *x == *y
+	case *TunnelReq:
+		y, ok := b.(*TunnelReq)
+		return ok && x.Channel == y.Channel && x.SeqNumber == y.SeqNumber && c02CemiEqual(x.Payload, y.Payload)
+	case *TunnelRes:
+		y, ok := b.(*TunnelRes)
+		return ok && *x == *y
+	case *RoutingInd:
+		y, ok := b.(*RoutingInd)
+		return ok && c02CemiEqual(x.Payload, y.Payload)
+	case *SearchReq:
+		y, ok := b.(*SearchReq)
+		return ok && *x == *y
+	case *SearchRes:
+		y, ok := b.(*SearchRes)
+		return ok && x.Control == y.Control && c02DevEqual(&x.DescriptionB.DeviceHardware, &y.DescriptionB.DeviceHardware) &&
+			c02FamEqual(&x.DescriptionB.SupportedServices, &y.DescriptionB.SupportedServices)
+	case *DescriptionReq:
+		y, ok := b.(*DescriptionReq)
+		return ok && *x == *y
+	case *DescriptionRes:
+		y, ok := b.(*DescriptionRes)
+		return ok && c02DevEqual(&x.DeviceHardware, &y.DeviceHardware) && c02FamEqual(&x.SupportedServices, &y.SupportedServices)
+	case *UnknownService:
+		y, ok := b.(*UnknownService)
+		return ok && x.service == y.service && bytes.Equal(x.Data, y.Data)
+	}
+	return false
+}
+
+// c02TpduCanonical: unnumbered units carry sequence 0 (the sequence bits are reserved then).
+func c02TpduCanonical(m cemi.Message) bool {
+	var ld *cemi.LData
+	switch x := m.(type) {
+	case *cemi.LDataReq:
+		ld = &x.LData
+	case *cemi.LDataCon:
+		ld = &x.LData
+	case *cemi.LDataInd:
+		ld = &x.LData
+	default:
+		return true
+	}
+	switch u := ld.Data.(type) {
+	case *cemi.AppData:
+		return u.Numbered || u.SeqNumber == 0
+	case *cemi.ControlData:
+		return u.Numbered || u.SeqNumber == 0
+	}
+	return true
+}
+
+// HarnessC02Relay: a = {service id, L, first DIB type (description responses, 0 = free)}: any accepted
+// byte string of an encodable type is decoded, re-encoded and decoded again; the two values must be
+// equal (a relay never changes a telegram).
+func HarnessC02Relay(a []int) {
+	svc, L := a[0], a[1]
+	data := nondetBytes(L)
+	hdr := []byte{6, 0x10, byte(svc >> 8), byte(svc)}
+	for i := 0; i < 4 && i < L; i++ {
+		data[i] = hdr[i]
+	}
+	if len(a) > 2 && a[2] != 0 && L >= 8 {
+		data[7] = byte(a[2])
+	}
+	var v1 Service
+	if _, err := Unpack(data, &v1); err != nil {
+		verifCover("C02.relay.rejected")
+		return
+	}
+	p, ok := v1.(ServicePackable)
+	if !ok {
+		verifCover("C02.relay.not_encodable") // routing lost / busy have no encoder
+		return
+	}
+	// validity predicate of the property (reserved parts zero, documented field limits)
+	switch x := v1.(type) {
+	case *TunnelReq:
+		verifAssume(c02TpduCanonical(x.Payload))
+	case *RoutingInd:
+		verifAssume(c02TpduCanonical(x.Payload))
+	case *DescriptionRes:
+		verifAssume(len(x.UnknownBlocks) == 0 && len([]rune(x.DeviceHardware.FriendlyName)) <= 29)
+		verifAssume(x.DeviceHardware.Type == DescriptionTypeDeviceInfo && x.SupportedServices.Type == DescriptionTypeSupportedServiceFamilies)
+	case *SearchRes:
+		verifAssume(len([]rune(x.DescriptionB.DeviceHardware.FriendlyName)) <= 29)
+	}
+	verifCover("C02.relay.accepted")
+	b2 := AllocAndPack(p)
+	var v2 Service
+	n2, err := Unpack(b2, &v2)
+	verifAssert("C02.relay.reencoded_decodes", err == nil && n2 <= uint(len(b2)))
+	verifAssert("C02.relay.same_value", c02ServiceEqual(v1, v2))
+	verifObserve("len2", len(b2))
+}
